@@ -19,6 +19,12 @@ CHECKS = {
          "Every data frame handed to the radio (recorded at call time, even when the call fails) is decoded by an independent reference codec; counters must strictly increase per session until expiry is reported. A radio fault is injected at every radio-call position of every transaction shape on both front-ends (+Class C), with start counters at 0 / 2^16 / 2^32 boundaries; the rest of the budget is seeded random histories. Sampling, not proof.",
          "Trusted: the reference AES-128/CMAC/LoRaWAN codec (self-tested against FIPS-197, RFC 4493 and a published frame at start-up), the SimRadio/SimTimer stubs, the nb application policy 'retry the failed event'. Cancellation of an in-flight send and power loss are not injected here.", "6 (C06)"),
 }
+CHECKS["C04"] = ("exploration", "deterministic simulation: complete field sweep of every MAC command / JoinAccept field x region x front-end, plus seeded random histories; catch_unwind + RNG-draw budget + post-history transmit probe",
+ "Every call into the real stack (both front-ends, +Class C, 9 regions, OTAA/ABP) is wrapped in catch_unwind with a per-call RNG-draw budget that turns a non-terminating channel-selection loop into a failure; after each history the device must still hand a frame to the radio under three RNG streams. The finite field sweep is complete in the thorough tier and sampled in the quick tier; histories are sampled.",
+ "Trusted: stubs (radio, timer, RNG budget), the reference codec that builds the authentic frames. Hangs that draw no random numbers are only caught by the 60 s wall-clock watchdog. Application calls stay in the documented domain (DESIGN section 8).", "6 (C04)")
+CHECKS["C05"] = ("exploration", "deterministic simulation: replaying/reordering adversary over sessions at 16/32-bit counter boundaries; reference acceptance predicate (independent MIC + window arithmetic) compared per delivered frame and per state",
+ "Each frame delivered in RX1/RX2/RXC is judged at delivery time by an independent implementation of the statement (size limit of the window's data rate, unique N in (last, last+16384], MIC by the reference codec); the device's reaction is read from its responses, downlink queue, stored counter and next uplink. Counter classes at every boundary are probes with hit counts in the evidence. Sampling.",
+ "Trusted: reference codec and RP002 size tables, the mapping from trace to per-frame reaction (Class C gap frames are only observable through state and payloads). Frames the statement is silent about are not generated.", "6 (C05)")
 PENDING = {}
 
 def main():
